@@ -189,6 +189,10 @@ func getOctoSQLValue(t octosql.Type, value *fastjson.Value) (out octosql.Value, 
 	case octosql.TypeIDList:
 		if value.Type() == fastjson.TypeArray {
 			arr, _ := value.Array()
+			if t.List.Element == nil && len(arr) > 0 {
+				// Only empty arrays were seen when the type was inferred.
+				return octosql.ZeroValue, false
+			}
 			values := make([]octosql.Value, len(arr))
 
 			outOk := true
